@@ -120,29 +120,28 @@ func (its *WiredDatatype) calculatePullingOperations(newCheckPoint *model.CheckP
 
 func (its *WiredDatatype) checkOptionAndError(ppp *model.PushPullPack) errors.OrdaError {
 	if ppp.GetPushPullPackOption().HasErrorBit() {
-		modelOp := ppp.GetOperations()[0]
-		errOp, ok := operations.ModelToOperation(modelOp).(*operations.ErrorOperation)
-		if ok {
-			switch errOp.GetPushPullError().Code {
-			case errors.PushPullAbortionOfServer:
-				// TODO: implement me.
-			case errors.PushPullAbortionOfClient:
-				// TODO: implement me.
-			case errors.PushPullDuplicateKey:
-				return errors.DatatypeCreate.New(its.L(), fmt.Sprintf("duplicated key:'%s'", its.Key))
-			case errors.PushPullMissingOps:
-				// TODO: implement me.
-			case errors.PushPullNoDatatypeToSubscribe:
-				return errors.DatatypeSubscribe.New(its.L(), fmt.Sprintf("%v", errOp.GetPushPullError().Msg))
-			}
-			panic("Not implemented yet")
-		} else {
-			panic("Not implemented yet")
+		if len(ppp.GetOperations()) == 0 {
+			return errors.PushPullAbortionOfServer.New(its.L(), "error pack without ErrorOperation")
 		}
-	} else if ppp.GetPushPullPackOption().HasSubscribeBit() {
 		modelOp := ppp.GetOperations()[0]
-		_, ok := operations.ModelToOperation(modelOp).(*operations.SnapshotOperation)
-		if !ok {
+		if modelOp.GetOpType() != model.TypeOfOperation_ERROR {
+			return errors.PushPullAbortionOfServer.New(its.L(), "error pack without ErrorOperation")
+		}
+		errOp := operations.ModelToOperation(modelOp).(*operations.ErrorOperation)
+		pushPullErr := errOp.GetPushPullError()
+		switch pushPullErr.Code {
+		case errors.PushPullDuplicateKey:
+			return errors.DatatypeCreate.New(its.L(), fmt.Sprintf("duplicated key:'%s'", its.Key))
+		case errors.PushPullNoDatatypeToSubscribe:
+			return errors.DatatypeSubscribe.New(its.L(), fmt.Sprintf("%v", pushPullErr.Msg))
+		case errors.PushPullAbortionOfServer, errors.PushPullAbortionOfClient, errors.PushPullMissingOps:
+			// the push-pull was refused as a whole: nothing is applied, the error is reported
+			// through the error handler and the datatype stays usable (it syncs again later)
+			return pushPullErr.Code.New(its.L(), pushPullErr.Msg)
+		}
+		return errors.PushPullAbortionOfServer.New(its.L(), pushPullErr.Msg)
+	} else if ppp.GetPushPullPackOption().HasSubscribeBit() {
+		if len(ppp.GetOperations()) == 0 || !isSnapshotOperation(ppp.GetOperations()[0]) {
 			return errors.DatatypeSubscribe.New(its.L(), "subscribe without SnapshotOp")
 		}
 		its.ResetWired()
@@ -153,6 +152,15 @@ func (its *WiredDatatype) checkOptionAndError(ppp *model.PushPullPack) errors.Or
 		its.L().Infof("ready to subscribe: %s", its.checkPoint.ToString())
 	}
 	return nil
+}
+
+func isSnapshotOperation(op *model.Operation) bool {
+	switch op.GetOpType() {
+	case model.TypeOfOperation_COUNTER_SNAPSHOT, model.TypeOfOperation_MAP_SNAPSHOT,
+		model.TypeOfOperation_LIST_SNAPSHOT, model.TypeOfOperation_DOC_SNAPSHOT:
+		return true
+	}
+	return false
 }
 
 func (its *WiredDatatype) excludeDuplicatedOperations(ppp *model.PushPullPack) {
